@@ -3,6 +3,14 @@ From Coq Require Import ZArith NArith List Bool Lia Arith ZifyBool ZifyN ZifyNat
 Import ListNotations.
 Require Import SR.Base.Res SR.Spec.Dde SR.Model.Structure.
 Require Import SR.Gen.StructureParams.
+(* The definitions of this development that occur in theorem statements (Props/) live in Spec/StructureWf.v (audit item G1).
+   The abbreviations keep the qualified names StructureP.name of other files resolving; they are parsing-only aliases. *)
+Require Export SR.Spec.StructureWf.
+Notation users := SR.Spec.StructureWf.users (only parsing).
+Notation not_generated := SR.Spec.StructureWf.not_generated (only parsing).
+Notation no01 := SR.Spec.StructureWf.no01 (only parsing).
+Notation levels_of := SR.Spec.StructureWf.levels_of (only parsing).
+Notation kept_of := SR.Spec.StructureWf.kept_of (only parsing).
 Open Scope nat_scope.
 Ltac Zify.zify_post_hook ::= Z.to_euclidean_division_equations.
 
@@ -96,10 +104,6 @@ Lemma gen_name_inj : forall n m, gen_name n = gen_name m -> n = m.
 Proof. intros n m H. rewrite !gen_name_eq in H. apply app_inv_head in H. apply dec_inj. exact H. Qed.
 
 (* ================================================================= naming *)
-
-Definition users (l : list entry) : list str := map dde_name (filter (fun e => negb (is_filler e)) l).
-Definition not_generated (u : str) : Prop := forall n, u <> gen_name n.
-Definition no01 (e : entry) : Prop := lvl_eqb (elv e) L01 = false.
 
 Lemma mk_ddes_cons_no01 : forall c e r, no01 e ->
   mk_ddes c (e :: r) =
@@ -587,7 +591,6 @@ Qed.
 Lemma spec_parents_sp : forall K, spec_parents K = sp_from [] K.
 Proof. intro K. unfold spec_parents. exact (spec_parents_from K []). Qed.
 
-Definition levels_of (K : list dde) : list N := map (fun d => lvl_num (dlv d)) K.
 Definition digits_ok (d : dde) : Prop := two_digits (dlv d) = true.
 
 Lemma ns_num : forall rp x, Forall digits_ok rp -> two_digits x = true ->
@@ -638,12 +641,6 @@ Proof.
 Qed.
 
 (* ----------------------------------------------------------------- main statements *)
-
-Definition kept_of (l : list entry) : list dde :=
-  match mk_ddes 0 l with
-  | [] => []
-  | d :: r => d :: filter keep r
-  end.
 
 Lemma structure_main : forall (l : list entry) (f : list tree),
   Forall (fun e => two_digits (elv e) = true) l ->
